@@ -277,6 +277,11 @@ func (fr *Frame) loopModSet(li *loopInfo) (*ModSet, map[*ssa.Alloc]bool) {
 	for b := range li.blocks {
 		for _, in := range b.Instrs {
 			fr.fc.g.instrMods(fr.fc, fr.fn, in, ms)
+			if nx, ok := in.(*ssa.Next); ok {
+				if rg, ok := nx.Iter.(*ssa.Range); ok && fr.mapRanges[rg] != nil {
+					ms.Names[fr.mapRanges[rg].vis] = true
+				}
+			}
 			// stores to local cells (variables kept in memory) and to captured variables
 			if stI, ok := in.(*ssa.Store); ok {
 				if ad, ok := fr.addrs[stI.Addr]; ok && ad.Kind == aLocal {
@@ -470,6 +475,34 @@ func (fr *Frame) lookupLocal(name string, st *State, at *ssa.BasicBlock, phiOver
 		return Val{}, false
 	}
 	fc := fr.fc
+	if name == "$visited" || name == "$dom0" {
+		// ghost sets of the innermost enclosing range-over-map loop
+		var best *mapRange
+		var bestB *ssa.BasicBlock
+		for _, b := range fr.fn.Blocks {
+			if !(b == at || b.Dominates(at)) {
+				continue
+			}
+			li := fr.loopOf[b]
+			if li == nil || li.head != b || !(li.blocks[at] || b == at) {
+				continue
+			}
+			for _, in := range b.Instrs {
+				if nx, ok := in.(*ssa.Next); ok {
+					if rg, ok := nx.Iter.(*ssa.Range); ok && fr.mapRanges[rg] != nil && (bestB == nil || bestB.Dominates(b)) {
+						best, bestB = fr.mapRanges[rg], b
+					}
+				}
+			}
+		}
+		if best == nil {
+			return Val{}, false
+		}
+		if name == "$dom0" {
+			return Val{T: types.NewArray(tBool, 0), S: best.dom0}, true
+		}
+		return Val{T: types.NewArray(tBool, 0), S: st.get(best.vis)}, true
+	}
 	if name == "$k" {
 		// iterations completed by the innermost enclosing slice-range loop
 		var bestP *ssa.Phi
@@ -812,19 +845,66 @@ func (fr *Frame) instr(in ssa.Instruction, b *ssa.BasicBlock, st *State) *State 
 		if dom, val, _, scalarV := fc.mapArrs(x.Map.Type(), mv.S); dom != "" {
 			kv := fr.val(x.Key, st)
 			st = st.store(dom, sx("store", st.get(dom), mv.S, sx("store", sx("select", st.get(dom), mv.S), kv.S, "true")))
-			if scalarV {
+			_, _ = val, scalarV
+			if lvs := fc.mapValLeaves(x.Map.Type(), mv.S); lvs != nil {
 				vv := fr.val(x.Value, st)
-				st = st.store(val, sx("store", st.get(val), mv.S, sx("store", sx("select", st.get(val), mv.S), kv.S, vv.S)))
+				flat := map[string]string{}
+				fc.mapValFlatten(vv, "", flat)
+				for _, l := range lvs {
+					if t, ok := flat[l.path]; ok {
+						st = st.store(l.arr, sx("store", st.get(l.arr), mv.S, sx("store", sx("select", st.get(l.arr), mv.S), kv.S, t)))
+					}
+				}
 			}
 		}
 		return st
 	case *ssa.Range:
 		fr.vals[x] = Val{T: x.Type(), S: "0"}
+		if _, isMap := x.X.Type().Underlying().(*types.Map); isMap {
+			// iteration over a map: ghost set of keys produced so far, and the key set at the start
+			mv := fr.val(x.X, st)
+			if dom, _, ks, _ := fc.mapArrs(x.X.Type(), mv.S); dom != "" {
+				fc.rangeN++
+				vis := fmt.Sprintf("L!rangevis!%d", fc.rangeN)
+				fc.regArr(vis, "(Array "+ks+" Bool)")
+				d0 := fc.freshName("rangedom0")
+				fc.declareConst(d0, "(Array "+ks+" Bool)")
+				fc.assume(sImp(g, sEq(sym(d0), sx("select", st.get(dom), mv.S))), "key set of the map when the range statement starts")
+				if fr.mapRanges == nil {
+					fr.mapRanges = map[*ssa.Range]*mapRange{}
+				}
+				fr.mapRanges[x] = &mapRange{vis: vis, dom0: sym(d0), m: mv, ks: ks}
+				return st.setRaw(vis, "((as const (Array "+ks+" Bool)) false)")
+			}
+		}
 		return st
 	case *ssa.Next:
 		v := fc.freshVal(x.Type(), fr.tagStr+x.Name())
 		fc.assume(sImp(g, fc.typingFacts(st, v)), "typing of range value")
 		fr.vals[x] = v
+		if rg, ok := x.Iter.(*ssa.Range); ok && fr.mapRanges[rg] != nil && len(v.Sub) >= 2 {
+			// Go's map iteration: a produced key is in the map and was not produced before; the iteration ends only
+			// when every key that was present at the start and still is has been produced
+			mr := fr.mapRanges[rg]
+			dom, val, _, scalarV := fc.mapArrs(rg.X.Type(), mr.m.S)
+			cur := sx("select", st.get(dom), mr.m.S)
+			vis := st.get(mr.vis)
+			okS, k := v.Sub[0].S, v.Sub[1].S
+			fc.assume(sImp(sAnd(g, okS), sAnd(sx("select", cur, k), sNot(sx("select", vis, k)))), "map iteration produces a present, not yet produced key")
+			q := "q!rk"
+			fc.assume(sImp(sAnd(g, sNot(okS)), fmt.Sprintf("(forall ((%s %s)) (! (=> (and (select %s %s) (select %s %s)) (select %s %s)) :pattern ((select %s %s))))", q, mr.ks, cur, q, mr.dom0, q, vis, q, cur, q)), "map iteration ends when every remaining original key was produced")
+			_, _ = val, scalarV
+			if lvs := fc.mapValLeaves(rg.X.Type(), mr.m.S); lvs != nil && len(v.Sub) >= 3 {
+				flat := map[string]string{}
+				fc.mapValFlatten(v.Sub[2], "", flat)
+				for _, l := range lvs {
+					if t, ok := flat[l.path]; ok {
+						fc.assume(sImp(sAnd(g, okS), sEq(t, sx("select", sx("select", st.get(l.arr), mr.m.S), k))), "map iteration value")
+					}
+				}
+			}
+			return st.setRaw(mr.vis, sIte(sAnd(g, okS), sx("store", vis, k, "true"), vis))
+		}
 		return st
 	case *ssa.Call:
 		return fr.call(x, x.Common(), b, st, g)
@@ -1375,9 +1455,19 @@ func (fr *Frame) lookup(x *ssa.Lookup, b *ssa.BasicBlock, st *State) *State {
 				res = v.Sub[0]
 				fc.assume(sImp(fr.reach[b], sEq(v.Sub[1].S, has)), "comma-ok of a map lookup is key presence")
 			}
-			if scalarV {
-				got := sx("select", sx("select", st.get(val), mv.S), kv.S)
-				fc.assume(sImp(fr.reach[b], sEq(res.S, sIte(has, got, fc.zeroVal(res.T).S))), "value of a map lookup")
+			_, _ = val, scalarV
+			if lvs := fc.mapValLeaves(x.X.Type(), mv.S); lvs != nil {
+				flat, zflat := map[string]string{}, map[string]string{}
+				fc.mapValFlatten(res, "", flat)
+				fc.mapValFlatten(fc.zeroVal(res.T), "", zflat)
+				for _, l := range lvs {
+					t, ok1 := flat[l.path]
+					z, ok2 := zflat[l.path]
+					if ok1 && ok2 {
+						got := sx("select", sx("select", st.get(l.arr), mv.S), kv.S)
+						fc.assume(sImp(fr.reach[b], sEq(t, sIte(has, got, z))), "value of a map lookup")
+					}
+				}
 			}
 		}
 	}
@@ -1637,6 +1727,83 @@ func isPkgLevel(o types.Object) bool {
 }
 
 // Precise map model (besides the length): per map type, dom : ref -> key -> Bool and, for scalar values, val : ref -> key -> V.
+// mapLeaf: one scalar component of a map's value type and the array that holds it (ref -> key -> component).
+type mapLeaf struct {
+	path string
+	arr  string
+	sort string
+}
+
+// mapValLeaves enumerates the scalar components of the element type of map type mt (scalars, slices, interfaces and
+// structs of those); nil when the element type is outside that subset.
+func (fc *FnCtx) mapValLeaves(mt types.Type, ref string) []mapLeaf {
+	m, ok := mt.Underlying().(*types.Map)
+	if !ok {
+		return nil
+	}
+	dom, _, ks, _ := fc.mapArrs(mt, ref)
+	if dom == "" {
+		return nil
+	}
+	pfx := "G!"
+	if fc.localMaps[ref] {
+		pfx = "L!"
+	}
+	base := pfx + "mapval!" + typeKey(m.Key()) + "!" + typeKey(m.Elem())
+	var out []mapLeaf
+	okAll := true
+	var walk func(t types.Type, path string)
+	walk = func(t types.Type, path string) {
+		switch kindOf(t) {
+		case KStruct:
+			st := t.Underlying().(*types.Struct)
+			for i := 0; i < st.NumFields(); i++ {
+				walk(st.Field(i).Type(), path+"."+st.Field(i).Name())
+			}
+		case KInt, KBool, KRef, KStr, KSlice, KIface:
+			for _, l := range fc.leafSorts(t) {
+				n := base + path + l[0]
+				fc.regArr(n, "(Array Int (Array "+ks+" "+l[1]+"))")
+				out = append(out, mapLeaf{path + l[0], n, l[1]})
+			}
+		default:
+			okAll = false
+		}
+	}
+	walk(m.Elem(), "")
+	if !okAll {
+		return nil
+	}
+	return out
+}
+
+// mapValBuild assembles a value of type t from its scalar components.
+func (fc *FnCtx) mapValBuild(t types.Type, path string, get func(path string) string) Val {
+	if kindOf(t) == KStruct {
+		st := t.Underlying().(*types.Struct)
+		v := Val{T: t}
+		for i := 0; i < st.NumFields(); i++ {
+			v.Sub = append(v.Sub, fc.mapValBuild(st.Field(i).Type(), path+"."+st.Field(i).Name(), get))
+		}
+		return v
+	}
+	return fc.buildFromLeaves(t, func(suffix string) string { return get(path + suffix) })
+}
+
+// mapValFlatten is the inverse of mapValBuild.
+func (fc *FnCtx) mapValFlatten(v Val, path string, out map[string]string) {
+	if kindOf(v.T) == KStruct && v.Sub != nil {
+		st := v.T.Underlying().(*types.Struct)
+		for i := 0; i < st.NumFields() && i < len(v.Sub); i++ {
+			fc.mapValFlatten(v.Sub[i], path+"."+st.Field(i).Name(), out)
+		}
+		return
+	}
+	for sfx, t := range leavesOf(v) {
+		out[path+sfx] = t
+	}
+}
+
 // bytesStr: the string made of the bytes of slice v in state st (uninterpreted function of row content, offset, length).
 func (fc *FnCtx) bytesStr(st *State, v Val) string {
 	m := fc.m
